@@ -14,7 +14,7 @@ KEEP_RECENT = 2
 
 
 def is_pos_sym(st, s):
-    return isinstance(s, str) and (s == "E" or (s[0] in "BT" and s in st.chain))
+    return st.is_pos(s)
 
 
 # =============================================================================================
@@ -156,6 +156,15 @@ class TapeHooks:
                 raise Unanalysable("cursor assigned a non-buffer pointer")
             r = m.buf_rel(st, v[1])
             if r is None:
+                if st.run is not None and m.ahead_rel(st, v[1]) is not None:
+                    # the target lies behind a measured run of unknown length: consume the look-ahead
+                    # one byte per step (the explorer treats the step as a loop head), unfolding the
+                    # run when the cells in front of it are used up
+                    if st.ahead[1] == 0:
+                        m.unfold_run(st)
+                    self.consume(m, st, 1)
+                    st.flags["summary_head"] = True
+                    raise Fork([("bulk-advance-step", lambda s_: None)], "bulk advance over a measured run")
                 raise Unanalysable("cursor moved to an inexact position")
             if r < 0:
                 st.flags["backward"] = st.flags.get("backward", 0) + 1
@@ -164,21 +173,7 @@ class TapeHooks:
                 return
             ok = m.need_tape(st, r)
             m.oblige(st, "advance-in-bounds", ok, "cursor advanced by %d with only %d byte(s) proven to remain" % (r, len(st.tape)))
-            cells = st.tape[:r]
-            # monitors first (pure; may Fork), then commit
-            if st.mon is not None:
-                newmon = st.mon.clone()
-                for i, c in enumerate(cells):
-                    newmon.consume(m, st, c, i)
-                st.mon = newmon
-            for c in cells:
-                if st.w_first is None and st.w_old_len == (0, True) and not st.w_recent:
-                    st.w_first = c
-                st.w_recent.append(c)
-            del st.tape[:r]
-            st.advance(r)
-            st.flags["consumed"] = True
-            st.flags.pop("$since", None)
+            self.consume(m, st, r)
             return
         if fname == "start":
             if v[0] != "ptr" or v[1][0] != "B":
@@ -201,6 +196,44 @@ class TapeHooks:
             return
         if fname == "end":
             m.violate(st, "end-reassigned", "Bytes.end reassigned")
+
+    def consume(self, m, st, r):
+        """The cursor passes the first r look-ahead cells."""
+        cells = st.tape[:r]
+        # monitors first (pure; may Fork), then commit
+        if st.mon is not None:
+            newmon = st.mon.clone()
+            for i, c in enumerate(cells):
+                newmon.consume(m, st, c, i)
+            st.mon = newmon
+        for c in cells:
+            if st.w_first is None and st.w_old_len == (0, True) and not st.w_recent:
+                st.w_first = c
+            st.w_recent.append(c)
+        del st.tape[:r]
+        if st.ahead is not None:
+            tok, idx = st.ahead
+            if r >= idx and st.run is None:
+                # the cursor reaches (or passes) the measured position: it becomes an ordinary
+                # position token behind the cursor
+                st.advance(idx)
+                if st.cur_gap == (0, True):
+                    # coincides with the last chain token: keep both names by a zero gap
+                    st.chain.append(tok)
+                    st.gaps.append((0, True))
+                else:
+                    st.chain.append(tok)
+                    st.gaps.append(st.cur_gap)
+                    st.cur_gap = (0, True)
+                st.ahead = None
+                st.advance(r - idx)
+            else:
+                st.ahead = (tok, idx - r)
+                st.advance(r)
+        else:
+            st.advance(r)
+        st.flags["consumed"] = True
+        st.flags.pop("$since", None)
 
     def window_len(self, st):
         lo, ex = st.w_old_len
@@ -733,6 +766,8 @@ def canonicalise(m, st):
     ws = st.flags.get("w_start")
     keep = set(s for s in syms if isinstance(s, str))
     keep.add("B")
+    if st.ahead is not None and st.run is None and st.ahead[0] not in keep:
+        st.ahead = None
     i = 1
     while i < len(st.chain):
         t = st.chain[i]
@@ -763,6 +798,8 @@ def canonicalise(m, st):
     for i, t in enumerate(st.chain):
         if t != "B":
             ren[t] = "T%d" % i
+    if st.ahead is not None:
+        ren[st.ahead[0]] = "A"
     if any(k != v for k, v in ren.items()):
         def g(v):
             if v[0] == "sym" and any(s in ren for s, c in v[1]):
@@ -784,6 +821,8 @@ def canonicalise(m, st):
         if ws is not None:
             st.flags["w_start"] = map_loc(map_loc(st.flags["w_start"], g1), g2)
         st.chain = [ren.get(t, t) for t in st.chain]
+        if st.ahead is not None:
+            st.ahead = (ren.get(st.ahead[0], st.ahead[0]), st.ahead[1])
     st.ntok = len(st.chain) + 1
     # 6. cells: GC + renumber in deterministic order
     order = []
@@ -850,7 +889,8 @@ def state_key(st):
     cells = tuple(sorted(st.cells.items()))
     flags = tuple(sorted((k, v) for k, v in st.flags.items() if k not in ("w_start",) and not k.startswith("$")))
     w = (tuple(st.w_recent), st.w_first if isinstance(st.w_first, int) else None, st.flags.get("w_start"))
-    return (frames, heap, cells, tuple(st.tape), st.eof, tuple(st.chain), tuple(st.gaps), st.cur_gap, w, tuple(sorted(st.env.items())),
+    return (frames, heap, cells, (tuple(st.tape), st.ahead, st.run) if st.ahead is not None else tuple(st.tape), st.eof, tuple(st.chain), tuple(st.gaps), st.cur_gap, w,
+            tuple(sorted(st.env.items())),
             tuple(sorted(st.rsyms.items())), tuple(st.wfacts), st.mon.key() if st.mon is not None else None, flags)
 
 
@@ -1087,23 +1127,38 @@ class Explorer:
             self.on_result(st)
 
 
-def closure_table(m, st, inst, clo_val, clo_tid):
-    """Mask of byte values for which a `FnMut(&u8) -> bool` closure (or fn item) returns true,
+def closure_of_type(m, clo_tid):
+    """The local instance that is the body of a closure type (by its definition path)."""
+    if not isinstance(clo_tid, int):
+        return None
+    ty = m.ty(clo_tid)
+    if ty.get("k") != "closure":
+        return None
+    path = M.norm_path(ty["path"])
+    cands = [i for i in m.p.insts if i["local"] and i["body"] and i["npath"] == path]
+    return cands[0] if len(cands) == 1 else None
+
+
+def closure_table(m, st, inst, clo_val, clo_tid, by_type=False):
+    """Mask of byte values for which a `FnMut(&u8) -> bool` (or `FnMut(&&u8)`) closure returns true,
     obtained by abstractly interpreting its body over one unconstrained byte cell."""
-    key = ("closure_table", inst["id"])
+    key = ("closure_table", inst["id"], clo_tid if by_type else None)
     if key in m.shared:
         return m.shared[key]
-    # locate the closure body: the FnMut::call_mut / FnOnce resolution is among the callees of
-    # the generic library function's instance
     target = None
-    for c, t, _ in m.p.callees(inst):
-        if c is None:
-            continue
-        ci = m.p.insts[c]
-        if ci["kind"] in ("item", "closure_once_shim", "fn_ptr_shim") and (ci["local"] or "call" in ci["npath"]):
-            if ci["body"] and ci["local"]:
-                target = ci
-                break
+    if by_type:
+        target = closure_of_type(m, clo_tid)
+    else:
+        # locate the closure body: the FnMut::call_mut / FnOnce resolution is among the callees of
+        # the generic library function's instance
+        for c, t, _ in m.p.callees(inst):
+            if c is None:
+                continue
+            ci = m.p.insts[c]
+            if ci["kind"] in ("item", "closure_once_shim", "fn_ptr_shim") and (ci["local"] or "call" in ci["npath"]):
+                if ci["body"] and ci["local"]:
+                    target = ci
+                    break
     if target is None:
         raise Unanalysable("cannot locate closure body for %s" % inst["name"])
     s = State()
@@ -1114,7 +1169,20 @@ def closure_table(m, st, inst, clo_val, clo_tid):
     sub = Machine(m.p, hooks=None)
     sub.prims = m.prims
     argc = target["body"]["argc"]
-    args = [("ptr", ("H", "$clo", ())), ("ptr", ("H", "$arg", ()))][-argc:] if argc <= 2 else None
+    # the byte is passed by as many references as the closure's parameter type has
+    depth = 0
+    if argc >= 1:
+        tid = target["body"]["locals"][argc]["ty"]
+        while m.ty(tid)["k"] in ("ref", "ptr"):
+            depth += 1
+            tid = m.ty(tid)["to"]
+    argv = ("ptr", ("H", "$arg", ()))
+    if depth == 0:
+        argv = s.heap["$arg"]
+    for d in range(1, depth):
+        s.heap["$arg%d" % d] = argv
+        argv = ("ptr", ("H", "$arg%d" % d, ()))
+    args = [("ptr", ("H", "$clo", ())), argv][-argc:] if argc <= 2 else None
     if args is None:
         raise Unanalysable("closure arity")
     sub.push_frame(s, target["id"], args, None, None)
